@@ -202,6 +202,7 @@ class PreemptivePriorities(O.Monitor):
             inds.extend(O.customers(nd))
         for ind in inds:
             R = ind.data_records
+            ptr = defaultdict(int)       # node -> samples of this customer at that node consumed so far (draw order)
             i = 0
             while i < len(R):
                 r = R[i]
@@ -218,42 +219,41 @@ class PreemptivePriorities(O.Monitor):
                 i = j + 1
                 nid = r.node
                 opt = self.spec["nodes"][nid - 1].get("prio_preempt")
-                if not opt or len(ep) < 2 and ep[0].record_type == "service":
+                if not opt or self.spec["nodes"][nid - 1]["servers"].get("preemption"):
                     continue
-                if self.spec["nodes"][nid - 1]["servers"].get("preemption"):
+                S_ = samples.get((ind.id_number, nid), [])
+                p0 = ptr[nid]
+                need = len(ep) if opt == "resample" else 1
+                ss = S_[p0:p0 + need]
+                ptr[nid] = p0 + need
+                if len(ep) < 2 and ep[0].record_type == "service":
+                    if len(ss) != 1 or ss[0][0] != ep[0].service_start_date:
+                        rep("one-sample-per-uninterrupted-service", {"customer": ind.id_number, "node": nid, "samples": ss, "start": O._num(ep[0].service_start_date)})
                     continue
                 self.activity["episodes_checked"] += 1
-                ss = [x for x in samples.get((ind.id_number, nid), []) if ep[0].service_start_date <= x[0] <= ep[-1].service_start_date]
                 final = ep[-1] if ep[-1].record_type == "service" else None
+                if len(ss) != need or ss[0][0] != ep[0].service_start_date:
+                    rep(opt + "-draws-" + ("a-fresh-sample-per-episode" if opt == "resample" else "one-sample"),
+                        {"customer": ind.id_number, "node": nid, "samples": ss, "episode_starts": [O._num(x.service_start_date) for x in ep]})
+                    continue
                 if opt == "resume":
-                    if len(ss) != 1:
-                        rep("resume-draws-one-sample", {"customer": ind.id_number, "node": nid, "samples": ss, "episodes": len(ep)})
-                    elif final is not None:
+                    if final is not None:
                         served = sum(float(x.exit_date) - float(x.service_start_date) for x in ep[:-1]) + float(final.service_end_date) - float(final.service_start_date)
                         if abs(served - float(ss[0][1])) > 1e-9:
                             rep("resume-total-served-equals-requirement", {"customer": ind.id_number, "node": nid, "served": served, "requirement": ss[0][1]})
-                    for x in ep[:-1] if final is not None else ep:
-                        pass
                 elif opt == "restart":
-                    if len(ss) != 1:
-                        rep("restart-draws-one-sample", {"customer": ind.id_number, "node": nid, "samples": ss, "episodes": len(ep)})
-                    else:
-                        for x in ep:
-                            dur = x.service_time if x.record_type == "interrupted service" else x.service_end_date - x.service_start_date
-                            if abs(float(dur) - float(ss[0][1])) > 1e-9:
-                                rep("restart-gives-the-same-time-again", {"customer": ind.id_number, "node": nid, "episode_time": O._num(dur), "requirement": ss[0][1]})
-                                break
+                    for x in ep:
+                        dur = x.service_time if x.record_type == "interrupted service" else x.service_end_date - x.service_start_date
+                        if abs(float(dur) - float(ss[0][1])) > 1e-9:
+                            rep("restart-gives-the-same-time-again", {"customer": ind.id_number, "node": nid, "episode_time": O._num(dur), "requirement": ss[0][1]})
+                            break
                 elif opt == "resample":
-                    if len(ss) != len(ep):
-                        rep("resample-draws-a-fresh-sample-per-episode", {"customer": ind.id_number, "node": nid, "samples": len(ss), "episodes": len(ep)})
-                    else:
-                        for x, s in zip(ep, ss):
-                            dur = x.service_time if x.record_type == "interrupted service" else x.service_end_date - x.service_start_date
-                            if abs(float(dur) - float(s[1])) > 1e-9 or s[0] != x.service_start_date:
-                                rep("resample-episode-uses-its-own-sample", {"customer": ind.id_number, "node": nid, "episode_time": O._num(dur), "sample": s})
-                                break
+                    for x, s_ in zip(ep, ss):
+                        dur = x.service_time if x.record_type == "interrupted service" else x.service_end_date - x.service_start_date
+                        if abs(float(dur) - float(s_[1])) > 1e-9 or s_[0] != x.service_start_date:
+                            rep("resample-episode-uses-its-own-sample", {"customer": ind.id_number, "node": nid, "episode_time": O._num(dur), "sample": s_})
+                            break
                 elif opt == "reroute":
                     for x in ep:
-                        if x.record_type == "interrupted service":
-                            if x is not ep[-1]:
-                                rep("rerouted-customer-has-no-further-episode-here", {"customer": ind.id_number, "node": nid})
+                        if x.record_type == "interrupted service" and x is not ep[-1]:
+                            rep("rerouted-customer-has-no-further-episode-here", {"customer": ind.id_number, "node": nid})
